@@ -118,6 +118,16 @@ type ctx struct {
 	caps     map[string]bool
 	harness  map[string]bool
 	extra    map[string]any
+	samples  map[string][]any
+}
+
+// sample keeps a few written-out cases per part (added to the report in a fixed order at the end).
+func (c *ctx) sample(part string, v any) {
+	c.mu.Lock()
+	defer c.mu.Unlock()
+	if len(c.samples[part]) < 2 {
+		c.samples[part] = append(c.samples[part], v)
+	}
 }
 
 func (c *ctx) capHit(s string) {
@@ -160,7 +170,7 @@ func main() {
 	flag.Parse()
 
 	r := vx.NewReport("C13", *tier, "exploration")
-	c := &ctx{tier: *tier, thorough: *tier == "thorough", r: r, col: newCollector(), caps: map[string]bool{}, harness: map[string]bool{}, extra: map[string]any{}}
+	c := &ctx{tier: *tier, thorough: *tier == "thorough", r: r, col: newCollector(), caps: map[string]bool{}, harness: map[string]bool{}, extra: map[string]any{}, samples: map[string][]any{}}
 
 	if *replay != "" {
 		doReplay(c, *replay)
@@ -227,6 +237,11 @@ func main() {
 		r.Extra["part_"+name] = st
 	}
 	r.DistinctOutcomes = len(outcomes)
+	for _, p := range parts {
+		for _, s := range c.samples[p.name] {
+			r.Sample(s)
+		}
+	}
 	r.BoundCompleted = boundText(c)
 	r.CapsHit = append(r.CapsHit, sortedKeys(c.caps)...)
 	r.HarnessErrs = append(r.HarnessErrs, sortedKeys(c.harness)...)
